@@ -18,6 +18,7 @@ the sites in `$VERIF_REPO/ariadne_codegen` with the `ast` module:
   listing     glob / rglob / iterdir / listdir / walk / scandir call (the call itself, and every function that
               yields/returns from one, is then treated like a set expression: its consumers are sites)
   ambient     hash(), id(), random.*, uuid.*, time.*, datetime.now/utcnow/today, os.getpid, os.urandom
+  formatter   isort.code(...), format_str(...), fix_code(...): the exact call, arguments included
 
 A *set expression* is recognised by a conservative type inference by NAME: names/attributes annotated with
 something containing Set[...]/set[...]/set, assigned from a set expression, tuple-unpacked from a function
@@ -43,6 +44,10 @@ ITER_FUNCS = {"list", "tuple", "enumerate", "iter", "next", "zip", "map", "filte
               "sum", "any", "all", "dict", "OrderedDict", "deque", "chain"}
 LISTING = {"glob", "rglob", "iterdir", "listdir", "walk", "scandir"}
 EXCLUDE_DIRS = ("client_generators/dependencies",)
+# text-to-text stages between the generated AST and the file: isort's section placement consults the filesystem
+# unless it is configured not to, so HOW it is called is part of the site
+FORMATTERS = {"isort.code", "isort.api.sort_code_string", "format_str", "black.format_str", "fix_code",
+              "autoflake.fix_code", "isort.file", "isort.stream"}
 
 
 def _ann_has_set(node) -> bool:
@@ -357,6 +362,8 @@ class FileScan:
                 if cn in LISTING:
                     self.add(n, "listing")
                 src = ast.unparse(n.func)
+                if src in FORMATTERS:
+                    self.add(n, "formatter")
                 if (isinstance(n.func, ast.Name) and cn in ("hash", "id")) or re.match(
                         r"^(random|uuid|time|secrets)\.\w+$", src) or re.search(
                         r"\b(datetime|date)\.(now|utcnow|today)$", src) or src in (
